@@ -9,7 +9,8 @@
 (***************************************************************************)
 EXTENDS GraphPack, Json, SequencesExt, FiniteSetsExt
 
-CONSTANTS N,          \* number of nodes
+CONSTANTS Layouts,    \* set of <<nodes with 0xFF payload, nodes with offsets first>>
+          N,          \* number of nodes
           Sizes,      \* payload sizes of non-root nodes
           LinkOpts,   \* set of sequences of widths allowed between an ordered pair
           MaxCopies   \* bound on duplications in the transformation model
@@ -24,8 +25,11 @@ LinksFrom(choice, i) ==
                   ELSE [k \in DOMAIN choice[<<i, j>>] |-> [to |-> j, width |-> choice[<<i, j>>][k]]] \o Build(j + 1)
   IN Build(i + 1)
 Graphs == {[n |-> N, size |-> [i \in 1..N |-> IF i = 1 THEN 2 ELSE sz[i]],
-            links |-> [i \in 1..N |-> LinksFrom(ch, i)]] :
-              sz \in [2..N -> Sizes], ch \in [Pairs -> LinkOpts]}
+            links |-> [i \in 1..N |-> LinksFrom(ch, i)],
+            \* layout of the object bytes: payload filled with 0xFF (like an unresolved offset) or a
+            \* per-node byte; offsets before or after the payload
+            ff |-> [i \in 1..N |-> i \in lay[1]], offsFirst |-> [i \in 1..N |-> i \in lay[2]]] :
+              sz \in [2..N -> Sizes], ch \in [Pairs -> LinkOpts], lay \in Layouts}
 Connected(gr) == Reach(AsObjs(gr), 1) = 1..N
 
 Init == /\ g \in {gr \in Graphs : Connected(gr)}
@@ -63,8 +67,13 @@ AcceptedIsSound == accepted => Sound(objs, order, AsObjs(g))
 \* (b) enumeration only
 InitEnum == g \in {gr \in Graphs : Connected(gr)} /\ objs = <<>> /\ order = <<>> /\ accepted = FALSE
 SpecEnum == InitEnum /\ [][UNCHANGED <<g, objs, order, accepted>>]_<<g, objs, order, accepted>>
-CaseDump == PrintT(<<"CASE", ToJson([n |-> g.n, size |-> g.size, links |-> g.links])>>)
+CaseDump == PrintT(<<"CASE", ToJson([n |-> g.n, size |-> g.size, links |-> g.links, ff |-> g.ff, offsFirst |-> g.offsFirst])>>)
 \* link-width alphabets for the configurations (a .cfg file cannot contain tuples)
+LayoutsPlain == {<<{}, {}>>}
+LayoutsFF3 == {<<a, b>> : a \in SUBSET {2, 3}, b \in SUBSET {2, 3}}
+LO_ff == {<<>>, <<2>>, <<4>>}
+LO_ff4 == {<<>>, <<2>>}
+LayoutsFF4 == {<<a, b>> : a \in {{2, 3}, {2, 3, 4}}, b \in SUBSET {2, 3}}
 LO_model == {<<>>, <<2>>, <<4>>, <<2, 4>>}
 LO_enum3 == {<<>>, <<2>>, <<3>>, <<4>>, <<2, 2>>, <<2, 4>>, <<4, 2>>}
 LO_enum4 == {<<>>, <<2>>, <<4>>}
